@@ -148,6 +148,27 @@ def run(ctx):
             det = 'pushes %s, collect %s, reordering producers %s' % (pushes, coll[:1], other[:3])
         ctx.ob('3g columns-kept-in-file-order', 'K4-provenance', rf.path,
                'Metadata.columns is the vector the col<i>= lines were pushed onto in file order (no map, sort or re-collection in between): column i of the file is column i of the database', ok, det)
+    # administration calls rely on "open, then drop" leaving no log content behind before files are deleted by prefix: the clean
+    # shutdown path (no background error) always runs the full clean (flush every column, truncate EVERY dirty log) and then
+    # deletes the log files - not the worker's incremental clean, which may keep the newest enacted logs
+    kl = ctx.body('db::DbInner::kill_logs')
+    if kl:
+        none = lib.prune_option_field(kl, '.DbInner.bg_err', keep_some=False)
+        ca = lib.sites_reaching(kl, ['db::DbInner::clean_all_logs'])
+        lk = lib.sites_reaching(kl, ['log::Log::kill_logs'])
+        lib.must_pass(ctx, '3s shutdown-truncates-every-log', kl, ca, 'without a background error every success path of kill_logs runs clean_all_logs', removed_edges=none)
+        lib.precedes(ctx, '3s2 full-clean-before-log-files-are-deleted', kl, ca, lk, 'clean_all_logs precedes Log::kill_logs', removed_edges=none)
+    cab = ctx.body('db::DbInner::clean_all_logs')
+    if cab:
+        nd = cab.call_sites('log::Log::num_dirty_logs')
+        cl = cab.call_sites('log::Log::clean_logs')
+        ok = False
+        for s2 in cl:
+            a = cab.term(s2)['a']
+            if len(a) > 1 and op_place(a[1]) is not None:
+                sl = backward_slice(cab, [op_place(a[1])])
+                ok = any(bi in nd for bi, _ in sl.call_sites) and not (sl.binops - {'Not'})
+        ctx.ob('3s3 full-clean-truncates-all-dirty-logs', 'K4-provenance', cab.path, 'clean_all_logs asks Log::clean_logs for exactly num_dirty_logs() truncations (no log is kept)', ok and bool(cl), '')
     # ------------------------------------------------ 4. administration touches only its column
     df = ctx.body('column::Column::drop_files')
     if df:
